@@ -74,6 +74,7 @@ fn sys_family(name: &str) -> Option<SysFam> {
         "c04" => Some(fam_sys::c04),
         "c01" => Some(fam_sys::c01),
         "c02" => Some(fam_sys::c02),
+        "c08s" => Some(fam_sys::c08s),
         "c03" => Some(fam_sys::c03),
         "c05" => Some(fam_sys::c05),
         "c06" => Some(fam_sys::c06),
